@@ -67,7 +67,7 @@ pub fn labelled(p: &reggen::Program) -> (Value, Vec<Option<usize>>) {
         };
         !fields.iter().any(|f| bad(&f.ty, &skipped))
     }).collect();
-    let (rj, labels) = reggen::build_labelled(p);
+    let (rj, labels) = reggen::build_with_defs(p);
     (rj, labels.into_iter().map(|l| l.filter(|d| in_class[*d])).collect())
 }
 
